@@ -169,6 +169,8 @@ func c04initNames() (quick int) {
 	for _, labels := range [][]string{{"b"}, {"a", "a"}, {"a", "b"}, {"b", "a"}, {"b", "b"}, {"a", "a", "a"}} {
 		c04boundary = append(c04boundary, c04addName("boundary:"+strings.Join(labels, "."), c04wireName(labels...)))
 	}
+	// a dot INSIDE a label (one label "a.b", presentation form a\.b) next to the two labels a.b
+	c04boundary = append(c04boundary, c04addName("escaped-dot-label", c04wireName("a.b")), c04addName("boundary:escaped-dot-then-label", c04wireName("a.a", "a")))
 	c04boundary = append([]int{0}, c04boundary...) // "a" itself
 	return quick
 }
